@@ -29,11 +29,13 @@ Bits(v, dt) == LET x == V[v] IN
    ELSE <<"i", TruncQ(x[1], x[2]), 1, FALSE>>
 \* Python equality class of a literal: numbers compare by value, True == 1, 0.0 == -0.0, nan != nan
 PyKey(v) == IF IsNan(v) THEN <<"nan">> ELSE <<V[v][1], V[v][2]>>
-KeyOf(v, dt, devs) == IF "cache_signed_zero" \in devs THEN <<PyKey(v), dt>>
-                      ELSE <<PyKey(v), V[v][3], dt>>          \* design: sign of zero is part of the key
 \* str(value) as used in the initializer name
 Repr(v) == CASE v = "i0" -> "0" [] v = "i1" -> "1" [] v = "im3" -> "-3" [] v = "f0" -> "0.0" [] v = "fn0" -> "-0.0"
              [] v = "f1" -> "1.0" [] v = "f25" -> "2.5" [] v = "bT" -> "True" [] v = "bF" -> "False" [] v = "nan" -> "nan"
+\* design (and the code since "fix: key the builder's constant cache by type and text"): the key is the
+\* literal's Python type and repr, so 0 / 0.0 / -0.0 / False are four entries and nan equals nan
+KeyOf(v, dt, devs) == IF "cache_signed_zero" \in devs THEN <<PyKey(v), dt>>
+                      ELSE <<<<Repr(v), V[v][4]>>, dt>>
 NameOf(v, dt) == <<Repr(v), dt>>
 
 Init == cache = {} /\ hist = <<>> /\ outcome = <<>>
@@ -41,7 +43,7 @@ Promote(v, dt) ==
    /\ Len(hist) < MaxLen
    /\ hist' = Append(hist, <<v, dt>>)
    /\ LET key == KeyOf(v, dt, Deviations)
-          hits == {e \in cache : e.key = key /\ ~IsNan(v)}
+          hits == {e \in cache : e.key = key /\ ("cache_nan_dup" \in Deviations => ~IsNan(v))}
           why == KeyOf(v, dt, Deviations \ {"cache_signed_zero"}) \notin {KeyOf(e.v, e.dt, Deviations \ {"cache_signed_zero"}) : e \in hits}
       IN IF hits # {}
          THEN LET e == CHOOSE e \in hits : TRUE IN
@@ -63,5 +65,7 @@ Explained == \A k \in 1..Len(outcome) : (outcome[k].res = "hit" /\ outcome[k].bi
 AllValues == {"i0", "i1", "im3", "f0", "fn0", "f1", "f25", "bT", "bF", "nan"}
 QuickValues == {"i0", "i1", "f0", "fn0", "f25", "bT", "nan"}
 NoDevs == {}
-RealDevs == {"cache_signed_zero", "cache_nan_dup"}
+\* both deviations were real on the pinned tree and are fixed in /repo
+RealDevs == {}
+PinnedDevs == {"cache_signed_zero", "cache_nan_dup"}
 =============================================================================
